@@ -10,3 +10,5 @@ import LopdfModel.Model.Renumber
 import LopdfModel.Lemmas.Traverse
 import LopdfModel.Lemmas.Move
 import LopdfModel.Thm.C10
+import LopdfModel.Model.Edit
+import LopdfModel.Thm.C11
